@@ -501,6 +501,8 @@ def check_store(w, store_ids):
             except KeyError:
                 x = float("nan")
             got = 0 if math.isnan(x) else w.id_of_tok.get(int(x), -1)
+            if i == 1 and w.cfg["cause"] == "merge" and x == -5.0 and not (w.overwrite and 1 in ids):
+                continue      # the conflicting value that was on disk before (environment of cause "merge")
             if got != (i if i in ids else 0):
                 return "harvester file holds the value of setting %s at setting %d, expected %s" % (got, i, i if i in ids else 0)
     finally:
@@ -677,6 +679,10 @@ def replay_case(case, variant):
                         if outcome != "refused":
                             return ("step %d reap%r on an incomplete crop: %s, model says refused with an error" % (
                                 k, tuple(ev["args"]), outcome if exc is None else type(exc).__name__ + ": " + str(exc)[:120]), "reap_refuse", k, notes)
+                    elif want == "error_nothing":
+                        if outcome == "returned":
+                            notes.append("reap of a crop without any result returned (cached placeholder): left open by the property; trace abandoned")
+                            return None, None, k, notes
                     else:  # error
                         if outcome == "returned":
                             return ("step %d reap%r returned although the model says it must fail (%s)" % (
